@@ -86,7 +86,6 @@ def decode(val: t.Any, *, encoding: str = constants.DEFAULT_ENCODING) -> t.Any:
     return val
 
 
-@compat.lru_cache(maxsize=100_000)
 def isoformat(dt: datetime.date | datetime.time | datetime.timedelta) -> str:
     """Format any date/time object into an ISO-8601 string.
 
@@ -109,11 +108,17 @@ def isoformat(dt: datetime.date | datetime.time | datetime.timedelta) -> str:
         >>> serdes.isoformat(datetime.timedelta(hours=1))
         'PT1H'
     """
+    # Not memoized: equal instants with different UTC offsets are one and the same cache key.
     if isinstance(dt, (datetime.date, datetime.time)):
         return dt.isoformat()
+    return _duration_isoformat(dt)
+
+
+@compat.lru_cache(maxsize=100_000)
+def _duration_isoformat(dt: datetime.timedelta) -> str:
     if dt < datetime.timedelta(0):
         # A negative duration is written as the negated positive one (ISO 8601-2 sign prefix).
-        return f"-{isoformat(-dt)}"
+        return f"-{_duration_isoformat(-dt)}"
     dur: pendulum.Duration = (
         dt
         if isinstance(dt, pendulum.Duration)
